@@ -747,7 +747,10 @@ func (state *RuntimeState) setNewAuthCookie(w http.ResponseWriter,
 	return cookieVal, nil
 }
 
-func (state *RuntimeState) updateAuthCookieAuthlevel(w http.ResponseWriter, r *http.Request, authlevel int) (string, error) {
+// updateAuthCookieAuthlevel re-issues the auth cookie of the request with a new
+// auth level. The cookie MUST belong to username (the user the request was
+// authenticated as, and for whom the factor was verified).
+func (state *RuntimeState) updateAuthCookieAuthlevel(w http.ResponseWriter, r *http.Request, username string, authlevel int) (string, error) {
 	var authCookie *http.Cookie
 	for _, cookie := range r.Cookies() {
 		if cookie.Name != authCookieName {
@@ -760,7 +763,15 @@ func (state *RuntimeState) updateAuthCookieAuthlevel(w http.ResponseWriter, r *h
 		return "", err
 	}
 
-	var err error
+	cookieInfo, err := state.getAuthInfoFromAuthJWT(authCookie.Value)
+	if err != nil {
+		return "", err
+	}
+	if cookieInfo.Username != username {
+		// i.e.: authenticated with a client cert and presenting a cookie
+		// of some other user
+		return "", errors.New("authCookie does not belong to the authenticated user")
+	}
 	cookieVal, err := state.updateAuthJWTWithNewAuthLevel(authCookie.Value, authlevel)
 	if err != nil {
 		return "", err
